@@ -635,6 +635,7 @@ impl Engine for C06 {
                             timeout: Duration::from_secs(30),
                             stdout_to: None,
                             stdin_file: None,
+                            stderr_to: None,
                         },
                     );
                     let cr = match cr {
